@@ -110,6 +110,18 @@ func (c storeCfg) open() (*comet.PersistentHybridIndex, error) {
 	return comet.OpenPersistentHybridIndex(cfg)
 }
 
+// segFiles lists the segment-like files of a store directory.
+func segFiles(dir string) []string {
+	ents, _ := os.ReadDir(dir)
+	var out []string
+	for _, e := range ents {
+		if segFileRe.MatchString(e.Name()) {
+			out = append(out, e.Name())
+		}
+	}
+	return out
+}
+
 var segFileRe = regexp.MustCompile(`^(hybrid|vector|text|metadata)_(\d+)\.bin\.gz$`)
 
 // listing returns, per segment id present in the directory, the state of its four files
@@ -298,12 +310,37 @@ func runStoreHistory(r *rand.Rand, o storeHistOpts, t *Trace) *Case {
 			ops = append(ops, func(c *Case) { c.N(5) })
 			t.Stat("store.rotate")
 		case x < 64: // compaction (synchronous)
+			// segment files present when the compaction starts must still be there until the merged
+			// segment is registered (sampled at the hook points before registration)
+			files0 := segFiles(dir)
+			lost := 0
+			comet.VerifSetHandler(func(name string, args ...uint64) {
+				if name == "compact.closed" || name == "compact.before_register" {
+					now := map[string]bool{}
+					for _, f := range segFiles(dir) {
+						now[f] = true
+					}
+					n := 0
+					for _, f := range files0 {
+						if !now[f] {
+							n++
+						}
+					}
+					if n > lost {
+						lost = n
+					}
+				}
+				ser.handler(name, args...)
+			})
 			e := st.VerifMaybeCompact()
+			comet.VerifSetHandler(ser.handler)
 			code := 0
 			if e != nil {
 				code = 13
 			}
 			ops = append(ops, func(c *Case) { c.N(6).N(code) })
+			lostN := lost
+			ops = append(ops, func(c *Case) { c.N(13).N(lostN) })
 			t.Stat("store.compact")
 			observe()
 		case x < 69:
